@@ -406,7 +406,7 @@ func (a *FuncAn) countLemma(call *ssa.Call, r Lin) {
 					if x == ssa.CallInstruction(call) {
 						continue
 					}
-					m := availMap{"x": availEnt{arrPath, nil}}
+					m := availMap{"x": availEnt{p: arrPath}}
 					a.killByCall(m, a.E.callWrites(a, x))
 					if len(m) == 0 {
 						clean = false
